@@ -9,7 +9,9 @@
 (***************************************************************************)
 EXTENDS Cache, Json
 
-MCReqs == { <<1, 12>>, <<11, 2>>, <<1, 11>>, <<11, 1>>, <<2020, -4>>, <<2020, 13>>, <<2021, -4>>, <<10000, 1>> }
+(* refusals of four kinds: month number out of range, absent leap month, year beyond the range, and lunar year -1
+   (a legal LunarYear whose months are refused because they need year -2) *)
+MCReqs == { <<1, 12>>, <<11, 2>>, <<1, 11>>, <<11, 1>>, <<2020, -4>>, <<2020, 13>>, <<2021, -4>>, <<10000, 1>>, <<-1, 1>> }
 MCValid == { <<1, 12>>, <<11, 2>>, <<1, 11>>, <<11, 1>>, <<2020, -4>> }
 
 VARIABLE hist      \* completed calls: <<year, month, 1 if the spec answers with the month, 0 if refused>>
